@@ -8,6 +8,7 @@ import Iota.Gen.CurlAsm
 import Iota.Tie.Expect
 import Iota.Model.Curl
 import Iota.Model.AsmProgram
+import Iota.Proofs.Vectors.Curl
 
 namespace Iota.Tie.Curl
 open Iota
